@@ -39,6 +39,6 @@ RCMP(eq, ==) RCMP(ne, !=) RCMP(lt, <) RCMP(le, <=) RCMP(gt, >) RCMP(ge, >=)
 REPLAY(ctor0) { safe_i64 r; return SX(raw(r)) == 0; }
 REPLAY(ctor_i64) { uint64_t n = wit.u("n"); safe_i64 r((int64_t)n); return SX(raw(r)) == SX(n); }
 REPLAY(to_i64) { safe_i64 a((int64_t)wit.u("a.f0")); return (int64_t)a == (int64_t)raw(a); }
-REPLAY(ctor_z) { uint64_t lo = wit.u("n.f0.a[0].f0"), hi = wit.u("n.f0.a[0].f1"); i128 v = (i128)(((u128)hi << 64) | lo); printf("  z=%s\n", s128(v).c_str()); if (!fits64(v)) return true; /* precondition */
+REPLAY(ctor_z) { uint64_t lo = wit.u("n.f0.a.f0"), hi = wit.u("n.f0.a.f1"); i128 v = (i128)(((u128)hi << 64) | lo); printf("  z=%s\n", s128(v).c_str()); if (!fits64(v)) return true; /* precondition */
   safe_i64 r(z_number((int64_t)lo)); printf("  result=%lld\n", (ll)raw(r)); return SX(raw(r)) == v; }
 int main(int argc, char **argv) { signal(SIGFPE, on_fpe); return replay_main(argc, argv); }
